@@ -440,6 +440,7 @@ def run(chk):
                                   f"only part of the unconsumed input is saved in self.{attr}: the dropped bytes (e.g. the CR of a CRLF that straddles the read boundary, or bytes counted by the line limit) are missing when the next read continues the line")
     latch_rule(chk, repo)
     connect_rule(chk, repo)
+    progress_rule(chk, repo)
 
 
 def latch_rule(chk, repo, rule="C03.latch"):
@@ -501,3 +502,49 @@ def connect_rule(chk, repo, rule="C03.connect"):
             chk.violation(rule, a, "self._message_tail += data", "!(the parser still owns the payload stream of the upgraded request)",
                           "after CONNECT the parser owns a read-until-EOF payload, but data_received() sends every later read to _message_tail: tunnel bytes in the same read as the head reach request.content, bytes in later reads never do - the payload depends on the cut and the handler waits for ever",
                           path_condition=txt[:300])
+
+
+def progress_rule(chk, repo, rule="C03.progress"):
+    """A resumable parser may only ask for more input with everything it has consumed in this state recorded: on a path from the
+    dispatch of a chunk state to `return PAYLOAD_NEEDS_INPUT` that consumed bytes from the front of the buffer (`chunk = chunk[k:]`), the
+    parser state must have changed too.  Otherwise the consumption is forgotten at the read boundary and repeated after it - an *optional*
+    element (the lax CR before the line ending) is then accepted twice when the read ends right after it, but only once in a single read."""
+    pp = repo.func(MOD, "HttpPayloadParser.feed_data")
+    g = cfg_of(pp.node)
+    STATE = ("self._chunk", "self._chunk_size", "self._length")
+    tests = [n for n in g.nodes if n.kind == "test" and n.in_finally_copy is None and M.match_text("self._chunk == $S", norm.raw(n.ast)) is not None]
+    rets = [n for n in g.nodes if n.kind == "stmt" and isinstance(n.ast, ast.Return) and "PAYLOAD_NEEDS_INPUT" in norm.raw(n.ast) and n.in_finally_copy is None]
+    if not tests or not rets:
+        chk.analysis_error("C03.progress: chunk-state dispatch / need-input returns not found in the body parser")
+        return
+
+    def consumes(n):
+        a = n.ast
+        return n.kind == "stmt" and isinstance(a, ast.Assign) and len(a.targets) == 1 and isinstance(a.targets[0], ast.Name) and a.targets[0].id == "chunk" \
+            and isinstance(a.value, ast.Subscript) and norm.raw(a.value.value) == "chunk" and isinstance(a.value.slice, ast.Slice) and a.value.slice.lower is not None and a.value.slice.upper is None
+
+    NOT_PROGRESS = ("self._chunk_tail", "self._paused")  # the saved remainder and the flow-control flag record nothing about what was consumed
+
+    def advances(n):
+        a = n.ast
+        if n.kind == "stmt" and isinstance(a, (ast.Assign, ast.AugAssign)):
+            tg = a.targets if isinstance(a, ast.Assign) else [a.target]
+            return any(norm.raw(t).startswith("self._") and norm.raw(t) not in NOT_PROGRESS for t in tg)
+        # parser state kept in a container: self._trailer_lines.append(line)
+        return any(isinstance(c.func, ast.Attribute) and c.func.attr in prog.MUTATORS and norm.raw(c.func.value).startswith("self._") and norm.raw(c.func.value) not in NOT_PROGRESS for c in K.node_calls(n))
+
+    bad = 0
+    for t in tests:
+        for c in [n for n in g.nodes if consumes(n) and n.in_finally_copy is None]:
+            # t -(T)-> ... c ... -> return, never passing a state assignment and never passing another state dispatch
+            p1 = g.find_path(None, lambda n, c=c: n is c, lambda n: advances(n) or (n in tests), EXPLICIT, [(t, "T")])
+            if p1 is None:
+                continue
+            p2 = g.find_path([c], lambda n: n in rets, lambda n: advances(n) or (n in tests), EXPLICIT)
+            if p2 is not None:
+                bad += 1
+                chk.violation(rule, c.ast, K.short(c.ast), "a state change (or no consumption) before asking for more input",
+                              f"in state `{norm.raw(t.ast)}` bytes are taken from the front of the buffer and the parser may then return `need more input` without recording it: after the read boundary the same optional element is consumed again (lax mode: `abc\\\\r` | `\\\\r\\\\n` is accepted, `abc\\\\r\\\\r\\\\n` in one read is refused)",
+                              path=g.fmt_path(p1 + p2[1:]))
+    if not bad:
+        chk.ok(rule, pp, f"in each of the {len(tests)} chunk states, every path that consumes bytes and then asks for more input has advanced the parser state")
